@@ -128,6 +128,9 @@ func cases(run *vf.Run) ([]json.RawMessage, error) {
 			Verify:     rng.Intn(3) == 0,
 			Reset:      rng.Intn(2) == 0,
 		}
+		if i%3 == 2 {
+			s.FaultPct = []int{4, 12}[(i/3)%2] // storage faults on top of the delays
+		}
 		s.StormRounds = 40
 		if run.Tier == "thorough" {
 			s.StormRounds = 150
